@@ -6,3 +6,5 @@ open PgmVerif
 #print axioms PgmVerif.C08_reach_iff_active_trail
 #print axioms PgmVerif.C08_ancestors_exact
 #print axioms PgmVerif.C08_blanket_spec
+#print axioms PgmVerif.DSep.activeRev_reverse
+#print axioms PgmVerif.C08_dconnection_symmetric
